@@ -44,6 +44,11 @@ type c31Conn struct {
 }
 
 func (c *c31Conn) writePacket(p []byte) error {
+	if !verifrt.Symbolic() && p[0] == msgChannelData {
+		// native runs only: a transport with some write latency, so that the schedules in
+		// which the read loop gets ahead of a flush (found by the engine) also occur natively
+		time.Sleep(200 * time.Microsecond)
+	}
 	cp := make([]byte, len(p))
 	copy(cp, p)
 	c.out = append(c.out, cp)
@@ -330,7 +335,12 @@ func c31QueueFull(again bool, sched int) {
 	verifrt.Yield() // B and C are parked on writeCond
 	c31PeerKex(conn, false)
 	if again {
-		c31PeerKex(conn, false)
+		// the peer starts another exchange at once and answers it only after the woken writers
+		// had a chance to run (natively: so that they run while that exchange is in progress)
+		conn.in <- c31PeerInit(false)
+		verifrt.Yield()
+		conn.in <- []byte{msgKexECDHInit}
+		conn.in <- []byte{msgNewKeys}
 	}
 	c31Join(&wg)
 	verifrt.Yield()
